@@ -103,7 +103,7 @@ func rewriteDir(dir string, m map[string]string) (int, error) {
 				continue
 			}
 			if imp.Name == nil {
-				imp.Name = ast.NewIdent(path)
+				imp.Name = ast.NewIdent(path[strings.LastIndexByte(path, '/')+1:])
 			}
 			imp.Path.Value = strconv.Quote(to)
 			changed = true
